@@ -380,7 +380,65 @@ func viewsOfTwin(r *ev.Run) {
 			}
 		}
 	}
+	n += twinV2Groups(r)
 	r.Add("twin_object_histories", n)
+}
+
+// twinV2Groups: v2 objects with and without the optional groups next to each other.  X decodes a
+// vector that lacks a group and is then offered that group alone (the pinned decoders refuse the
+// continuation); objects decoded before and after from vectors with every combination of groups
+// must still answer like independent lower-level decodes (round 5, C05-B-r5: the private tables
+// of seen names replaced by shared package-level ones after a successful decode).
+func twinV2Groups(r *ev.Run) int64 {
+	var n int64
+	base := "AV:L/AC:H/Au:N/C:C/I:C/A:C"
+	tg, eg := "E:F/RL:OF/RC:C", "CDP:H/TD:H/CR:M/IR:M/AR:M"
+	type vv struct {
+		level int
+		s     string
+	}
+	all := []vv{{2, base}, {2, base + "/" + tg}, {2, base + "/" + eg}, {2, base + "/" + tg + "/" + eg}, {1, base}, {1, base + "/" + tg}, {0, base}}
+	check := func(o any, v vv, hist []string) {
+		tok := lang.Classify(2, v.level, v.s).Tokens
+		for lv := 0; lv <= v.level; lv++ {
+			ps := canonicalWritten(2, lv, "", lang.Project(2, lv, tok))
+			ind, ierr, _ := lib.DecodeNew(2, lv, ps)
+			if ierr != nil || ind == nil {
+				continue
+			}
+			if a, b := lib.Observe(lib.Sub(o, lv)), lib.Observe(ind); a != b {
+				r.Violate(ev.Violation{Kind: "view-of-another-object-changed", Case: map[string]any{"cvss": 2, "decoder": spec.LevelNames[v.level], "vector": v.s, "history": hist, "view": spec.LevelNames[lv]},
+					Observed: a.String(), Expected: b.String() + "  (independent decode of " + ps + ")"})
+				return
+			}
+		}
+	}
+	for _, xv := range all {
+		for _, piece := range []string{tg, eg, tg + "/" + eg, "E:F", "CDP:H/TD:H"} {
+			var before []any
+			for _, yv := range all {
+				o, _, _ := lib.DecodeNew(2, yv.level, yv.s)
+				before = append(before, o)
+			}
+			x, _, _ := lib.DecodeNew(2, xv.level, xv.s)
+			if x == nil {
+				continue
+			}
+			lib.Decode(x, piece)
+			lib.Observe(x)
+			n++
+			hist := []string{"objects Y decoded from every combination of groups", "X := " + spec.LevelNames[xv.level] + " decoder, Decode(" + xv.s + ")", "X.Decode(" + piece + ")"}
+			for i, yv := range all {
+				if before[i] != nil {
+					check(before[i], yv, append(append([]string{}, hist...), "views of the Y decoded from "+yv.s))
+				}
+				if z, _, _ := lib.DecodeNew(2, yv.level, yv.s); z != nil {
+					check(z, yv, append(append([]string{}, hist...), "views of a Z decoded afterwards from "+yv.s))
+				}
+			}
+		}
+	}
+	return n
 }
 
 // viewsTakenBeforeDecode: (i) the views are taken from the constructor result, then the owner
